@@ -741,6 +741,20 @@ fn history_case(ctx: &Ctx, dir: &std::path::Path, case: u64, seed: u64, rep: &mu
             }
         }
     }
+    if matches!(prop, "C02" | "C03") && rng.chance(1, 6) {
+        // the same input listed twice on one build line (a library named twice on a link line, the same
+        // file as explicit and implicit input)
+        let cands: Vec<usize> = (0..proj.steps.len()).filter(|&i| !proj.steps[i].phony && !proj.steps[i].ins.is_empty()).collect();
+        if !cands.is_empty() {
+            let i = *rng.pick(&cands);
+            let f = proj.steps[i].ins[0].clone();
+            if rng.chance(1, 2) {
+                proj.steps[i].ins.push(f);
+            } else {
+                proj.steps[i].imps.push(f);
+            }
+        }
+    }
     // C02 over generated manifests (every fifth history): C17's operations, C02's oracle
     let regen_c02 = prop == "C02" && rng.chance(1, 5);
     let gens = if prop == "C17" || regen_c02 { make_generations(&mut proj, &mut rng) } else { vec![] };
